@@ -981,6 +981,131 @@ def place(find=None, replace=None, call=None):
     return [(M, '\t// core process\n' + SYSPATH_OLD + COPY_OLD, call or PLACE_CALL), (M, UNINSTALL_DECL, h + UNINSTALL_DECL)]
 # K(d) records, found mark still a bool beside the pointer-free record value list; the fallback copies the element into a local
 WALK_REC_RANGE = rep(rep(WALK_REC, '\tonly := scan.named[0]\n', '\tonly := &scan.named[0]\n'), '\tif hit := scan.exe; hit != nil {\n\t\treturn hit.file, hit.plugin, nil\n\t}\n', '\tif scan.exe != nil {\n\t\treturn scan.exe.file, scan.exe.plugin, nil\n\t}\n')
+# ---- fourth pass
+# L. the source record by value with a value-receiver method
+SRC_HELPER_OBJV = SRC_HELPER_OBJ.replace('(*sourceInfo, error)', '(sourceInfo, error)').replace('&sourceInfo{', 'sourceInfo{').replace('\t\treturn nil, fmt.Errorf', '\t\treturn sourceInfo{}, fmt.Errorf').replace('func (s *sourceInfo) copyInto(', 'func (s sourceInfo) copyInto(')
+assert '*sourceInfo' not in SRC_HELPER_OBJV and 'return nil, fmt' not in SRC_HELPER_OBJV
+def objv(find=None, replace=None, extra=(), copy_call=None):
+    return obj(find, replace, extra, copy_call, helper=SRC_HELPER_OBJV)
+# M. the resolver validates the name before it hands it back
+SRC_HELPER_OBJVAL = """// sourceInfo is what Install installs from.
+type sourceInfo struct {
+	dir    string
+	single bool
+	file   string
+	plugin string
+}
+
+func locateSource(ctx context.Context, p string) (*sourceInfo, error) {
+	src := &sourceInfo{dir: p}
+	exe, name, err := parsePluginFromDir(ctx, p)
+	switch {
+	case err == nil:
+		src.file = exe
+	case errors.Is(err, file.ErrNotDirectory):
+		src.single = true
+		src.file = p
+		if name, err = nameOfExecutable(p); err != nil {
+			return nil, err
+		}
+	default:
+		return nil, fmt.Errorf("failed to read plugin from input directory: %w", err)
+	}
+	if err := validatePluginName(name); err != nil {
+		return nil, err
+	}
+	src.plugin = name
+	return src, nil
+}
+""" + SRC_HELPER_FILL[SRC_HELPER_FILL.index('\nfunc nameOfExecutable('):] + SRC_HELPER_OBJ[SRC_HELPER_OBJ.index('func (s *sourceInfo) copyInto('):]
+def objval(find=None, replace=None, extra=(), value=False, keep_nil=True):
+    h = SRC_HELPER_OBJVAL
+    if not keep_nil:
+        h = h.replace('\t\t\treturn nil, err\n', '\t\t\treturn src, err\n').replace('\t\treturn nil, err\n', '\t\treturn src, err\n')
+    if value:
+        h = h.replace('(*sourceInfo, error)', '(sourceInfo, error)').replace('src := &sourceInfo{dir: p}', 'src := sourceInfo{dir: p}').replace('return nil, ', 'return sourceInfo{}, ').replace('func (s *sourceInfo) copyInto(', 'func (s sourceInfo) copyInto(')
+    if find is not None:
+        h = rep(h, find, replace)
+    return [(M, SRC_OLD, SRC_CALL_OBJ), (M, VALIDATE_OLD, '\t// validate and get new plugin metadata\n'), (M, 'NewCLIPlugin(ctx, pluginName, pluginExecutableFile)', 'NewCLIPlugin(ctx, pluginName, from.file)'),
+            (M, COPY_OLD, COPY_CALL_OBJ), (M, UNINSTALL_DECL, h + UNINSTALL_DECL)] + list(extra)
+SRC_HELPER_FOUR_VALIDATED = rep(rep(SRC_HELPER_FOUR, '\tif err == nil {\n\t\treturn exe, name, false, nil\n\t}\n', '\tif err == nil {\n\t\tif err := validatePluginName(name); err != nil {\n\t\t\treturn "", "", false, err\n\t\t}\n\t\treturn exe, name, false, nil\n\t}\n'),
+                                '\treturn p, name, true, nil\n', '\tif err := validatePluginName(name); err != nil {\n\t\treturn "", "", false, err\n\t}\n\treturn p, name, true, nil\n')
+def res_four_validated(find=None, replace=None):
+    h = SRC_HELPER_FOUR_VALIDATED if find is None else rep(SRC_HELPER_FOUR_VALIDATED, find, replace)
+    return [(M, SRC_OLD, SRC_CALL_FOUR), (M, VALIDATE_OLD, '\t// validate and get new plugin metadata\n'), (M, UNINSTALL_DECL, h + UNINSTALL_DECL)]
+# N. the recorded path is its own "found" mark
+WALK_STRMARK = """	// walk the path
+	scan := pluginDirScan{root: path}
+	if err := filepath.WalkDir(path, scan.visit); err != nil {
+		return "", "", err
+	}
+	if scan.executableFile != "" {
+		return scan.executableFile, scan.pluginName, nil
+	}
+	// if no executable file was found, but there's one and only one
+	// potential candidate, try install the candidate
+	if len(scan.filesWithValidNameFormat) != 1 {
+		return "", "", errors.New("no plugin executable file was found")
+	}
+	candidate := scan.filesWithValidNameFormat[0]
+	if err := setExecutable(candidate); err != nil {
+		return "", "", fmt.Errorf("no plugin executable file was found: %w", err)
+	}
+	candidateFileName := filepath.Base(candidate)
+	logger.Warnf("Found candidate plugin executable file %q without executable permission. Setting user executable bit and trying to install.", candidateFileName)
+	candidatePluginName, err := parsePluginName(candidateFileName)
+	if err != nil {
+		return "", "", err
+	}
+	return candidate, candidatePluginName, nil
+}
+
+type pluginDirScan struct {
+	root                     string
+	executableFile           string
+	pluginName               string
+	filesWithValidNameFormat []string
+}
+
+func (s *pluginDirScan) visit(p string, d fs.DirEntry, err error) error {
+	if err != nil {
+		return err
+	}
+	// skip sub-directories
+	if d.IsDir() && p != s.root {
+		return fs.SkipDir
+	}
+	info, err := d.Info()
+	if err != nil {
+		return err
+	}
+	// only take regular files
+	if !info.Mode().IsRegular() {
+		return nil
+	}
+	candidatePluginName, err := parsePluginName(d.Name())
+	if err != nil {
+		return nil
+	}
+	s.filesWithValidNameFormat = append(s.filesWithValidNameFormat, p)
+	isExec, err := isExecutableFile(p)
+	if err != nil {
+		return err
+	}
+	if !isExec {
+		return nil
+	}
+	if s.executableFile != "" {
+		return errors.New("found more than one plugin executable files")
+	}
+	s.executableFile = p
+	s.pluginName = candidatePluginName
+	return nil
+}
+"""
+WALK_STRMARK_CLOSURE = rep(rep(rep(rep(WALK_OLD, '\tvar foundPluginExecutableFile bool\n', ''), '\t\t\tif foundPluginExecutableFile {\n', '\t\t\tif "" != pluginExecutableFile {\n'), '\t\t\tfoundPluginExecutableFile = true\n', ''),
+                           '\tif !foundPluginExecutableFile {\n', '\tif pluginExecutableFile == "" {\n')
+
 VARIANTS = [
  dict(name='equal-version-reinstalls', file=M, expect='flagged(table/decision)',
       find='\t\t\tcase comp == 0:\n\t\t\t\treturn nil, nil, InstallEqualVersionError{Msg: fmt.Sprintf("plugin %s with version %s already exists", pluginName, existingPluginMetadata.Version)}\n', replace=''),
@@ -1359,4 +1484,71 @@ VARIANTS = [
       edits=[(M, '\t// core process\n' + SYSPATH_OLD + COPY_OLD, ''), (M, '\t// clean up before installation, this guarantees idempotent for install\n', PLACE_CALL + '\t// clean up before installation, this guarantees idempotent for install\n'), (M, UNINSTALL_DECL, PLACE_HELPER + UNINSTALL_DECL)]),
  dict(name='shape-candidate-records-element-by-address', expect='silent', edits=[(M, WALK_OLD, WALK_REC_RANGE)],
       why='the fallback reads the fields through the address of element 0; the found record is read through the cell twice'),
+ # ---- fourth pass ------------------------------------------------------------------------------------------------
+ # L. the source record travels BY VALUE: returned by value, held in a local, the copy dispatch is a method with a value receiver
+ dict(name='shape4-value-record-copy-method', expect='silent', edits=objv(),
+      why='the record is a value all the way: the method reads its own never-written copy of what Install passed; a copy cannot be changed by anybody'),
+ dict(name='shape4-value-record-copy-function-other-order', expect='silent',
+      edits=objv('func (s sourceInfo) copyInto(dst string) error {', 'func copyInto(dst string, s sourceInfo) error {', copy_call=COPY_CALL_OBJ.replace('from.copyInto(pluginDirPath)', 'copyInto(pluginDirPath, from)')),
+      why='the same as a plain function with the record as second parameter'),
+ dict(name='shape4-value-record-two-hops', expect='silent',
+      edits=objv('func (s sourceInfo) copyInto(dst string) error {', 'func (s sourceInfo) placeInto(dst string) error {\n\tif err := s.copyInto(dst); err != nil {\n\t\treturn err\n\t}\n\treturn nil\n}\n\nfunc (s sourceInfo) copyInto(dst string) error {', copy_call=COPY_CALL_OBJ.replace('from.copyInto(', 'from.placeInto(')),
+      why='the value is handed on by value once more'),
+ dict(name='shape4-value-record-kind-inverted', expect='flagged(table/decision)', edits=objv('\tif s.single {\n', '\tif !s.single {\n')),
+ dict(name='shape4-value-record-method-edits-its-copy', expect='flagged(table/decision)',
+      edits=objv('\tif s.single {\n', '\ts.single = s.file == s.dir\n\tif s.single {\n'),
+      why='the method writes its copy before it reads it: what it reads is no longer what Install passed'),
+ dict(name='shape4-value-record-dir-of-other-place', expect='flagged(order/copy-after-cleanup)',
+      edits=objv('\t\treturn sourceInfo{dir: p, file: exe, plugin: name}, nil\n', '\t\treturn sourceInfo{dir: filepath.Dir(exe), file: exe, plugin: name}, nil\n'),
+      why='the directory that is copied is not the source path that was given'),
+ dict(name='shape4-value-record-zero-record-with-nil-error', expect='flagged(order/copy-after-cleanup)',
+      edits=objv('\t\treturn sourceInfo{}, fmt.Errorf("input file %s is not executable", base)\n', '\t\treturn sourceInfo{}, nil\n'),
+      why='an exit hands back the empty record as a success: its dir field is not the source path'),
+ dict(name='shape4-value-record-local-reassigned', expect='flagged(table/decision)',
+      edits=objv(extra=[(M, '\t// core process\n', '\tif overwrite {\n\t\tfrom = sourceInfo{dir: from.dir, file: from.file, plugin: from.plugin, single: !from.single}\n\t}\n\t// core process\n')]),
+      why='the local that holds the record is assigned again before the copy: the kind is no longer what the resolver said'),
+ # M. the name is validated where it is produced (by the resolver, before it hands the name back); Install does not validate again
+ dict(name='shape4-validated-by-resolver-pointer-record', expect='silent', edits=objval(),
+      why='the resolver validates the name it found and only then stores it into the record it returns; Install reads it from there'),
+ dict(name='shape4-validated-by-resolver-value-record', expect='silent', edits=objval(value=True),
+      why='the same with the record by value'),
+ dict(name='shape4-validated-by-resolver-plain-results', expect='silent',
+      edits=res_four_validated(),
+      why='four plain results; every nil-error exit of the resolver lies behind the validation of the name it returns'),
+ dict(name='shape4-validated-by-resolver-one-exit-unvalidated', expect='flagged(gates/',
+      edits=res_four_validated('\tif err == nil {\n\t\tif err := validatePluginName(name); err != nil {\n\t\t\treturn "", "", false, err\n\t\t}\n\t\treturn exe, name, false, nil\n\t}\n', '\tif err == nil {\n\t\treturn exe, name, false, nil\n\t}\n'),
+      why='the directory exit of the resolver returns a name that was never validated'),
+ dict(name='shape4-validated-by-resolver-other-value-validated', expect='flagged(gates/',
+      edits=objval('\tif err := validatePluginName(name); err != nil {\n', '\tif err := validatePluginName(filepath.Base(p)); err != nil {\n'),
+      why='the resolver validates something else than the name it stores'),
+ dict(name='shape4-validated-by-resolver-stored-before-rewritten', expect='flagged(gates/',
+      edits=objval('\tsrc.plugin = name\n\treturn src, nil\n', '\tsrc.plugin = name\n\tsrc.plugin = filepath.Base(p)\n\treturn src, nil\n'),
+      why='the field is written twice: what the record holds at the return is not the validated value'),
+ dict(name='shape4-validated-by-resolver-error-ignored-in-install', expect='flagged(gates/',
+      edits=objval(extra=[(M, '\tfrom, err := locateSource(ctx, installOpts.PluginPath)\n\tif err != nil {\n\t\treturn nil, nil, err\n\t}\n', '\tfrom, err := locateSource(ctx, installOpts.PluginPath)\n\tif err != nil && from == nil {\n\t\treturn nil, nil, err\n\t}\n')], keep_nil=False),
+      why='Install goes on with the record although the resolver reported an error (the resolver returns the record on its error exits too)'),
+ # N. the recorded path (or name) is its own "found" mark
+ dict(name='shape4-found-is-nonempty-path', expect='silent', edits=[(M, WALK_OLD, WALK_STRMARK)],
+      why='`executableFile != ""` instead of a flag: the cell is empty when the walk starts, assigned only while empty, and a walk path below a root os.Stat accepted is never empty'),
+ dict(name='shape4-found-is-nonempty-path-closure', expect='silent', edits=[(M, WALK_OLD, WALK_STRMARK_CLOSURE)],
+      why='the same with a function literal and captured variables'),
+ dict(name='shape4-found-is-nonempty-name', expect='silent', edits=[(M, WALK_OLD, rep(rep(WALK_STRMARK, '\tif s.executableFile != "" {\n\t\treturn errors.New', '\tif s.pluginName != "" {\n\t\treturn errors.New'), '\tif scan.executableFile != "" {\n', '\tif scan.pluginName != "" {\n'))],
+      why='the parsed name as the mark: the name parser returns a non-empty rest on every success exit'),
+ dict(name='shape4-found-mark-second-executable-wins', expect='flagged(discovery/pair-from-same-entry)',
+      edits=[(M, WALK_OLD, rep(WALK_STRMARK, '\tif s.executableFile != "" {\n\t\treturn errors.New("found more than one plugin executable files")\n\t}\n', ''))]),
+ dict(name='shape4-found-mark-preset', expect='flagged(discovery/pair-from-same-entry)',
+      edits=[(M, WALK_OLD, rep(WALK_STRMARK, '\tscan := pluginDirScan{root: path}\n', '\tscan := pluginDirScan{root: path, executableFile: path}\n'))],
+      why='the cell is not empty when the walk starts'),
+ dict(name='shape4-found-mark-other-cell-tested', expect='flagged(discovery/pair-from-same-entry)',
+      edits=[(M, WALK_OLD, rep(WALK_STRMARK, '\tif s.executableFile != "" {\n\t\treturn errors.New', '\tif s.root == "" {\n\t\treturn errors.New'))],
+      why='the guard before the store tests another cell'),
+ dict(name='shape4-found-mark-cleared-by-callback', expect='flagged(discovery/pair-from-same-entry)',
+      edits=[(M, WALK_OLD, rep(WALK_STRMARK, '\tif !isExec {\n\t\treturn nil\n\t}\n', '\tif !isExec {\n\t\ts.executableFile = ""\n\t\treturn nil\n\t}\n'))],
+      why='a later non-executable file clears the mark: a second executable is accepted'),
+ dict(name='shape4-found-mark-fallback-beside-executable', expect='flagged(discovery/fallback-pair)',
+      edits=[(M, WALK_OLD, rep(WALK_STRMARK, '\tif scan.executableFile != "" {\n', '\tif scan.executableFile != "" && len(scan.filesWithValidNameFormat) != 1 {\n'))],
+      why='with exactly one well-named file the fallback runs although an executable was found'),
+ dict(name='shape4-found-mark-walk-without-stat', expect='flagged(discovery/',
+      edits=[(M, WALK_OLD, WALK_STRMARK), (M, '\tfi, err := os.Stat(path)\n\tif err != nil {\n\t\treturn "", "", err\n\t}\n\tif !fi.Mode().IsDir() {\n\t\treturn "", "", file.ErrNotDirectory\n\t}\n', '')],
+      why='nothing says the walk root is not empty'),
 ]
